@@ -167,6 +167,7 @@ type uEnv struct {
 	nActivity    int             // pacer updates / rate callbacks seen so far
 	failInjected bool            // the transport-side RTCP writer fails every write the chain originates
 	failStreams  map[uint32]bool // local streams whose transport-side RTP writer always fails
+	bindGen      map[uint32]int  // how many transport-side RTP writers have been handed out per local stream (under mu)
 	statsGetter  stats.Getter
 	okW, okR     map[uint32]int // successful application writes / reads per SSRC
 	quiet        bool           // collect emissions only, log nothing
@@ -499,6 +500,10 @@ func uSumRTCP(pkts []rtcp.Packet) []vfM { //nolint:cyclop
 
 // transport-side writers ---------------------------------------------------------------------------------
 func (e *uEnv) wireRTP(s uint32) interceptor.RTPWriter {
+	e.mu.Lock()
+	e.bindGen[s]++
+	bgen := e.bindGen[s] // which binding of the stream this transport-side writer belongs to
+	e.mu.Unlock()
 	gen := 0
 	if e.rb != nil { // re-bind mode: which bind of the stream handed out this transport-side writer
 		e.mu.Lock()
@@ -521,6 +526,9 @@ func (e *uEnv) wireRTP(s uint32) interceptor.RTPWriter {
 		var rec vfM
 		if !e.nowire || e.quiet {
 			rec = vfPkt(h, pl)
+			if bgen != e.bindGen[s] { // written to the transport-side writer of an EARLIER binding of the stream
+				rec["stale"] = true
+			}
 		}
 		if app {
 			if fl.fail {
@@ -787,7 +795,7 @@ func uRun(t *testing.T, sc *uScript, out *vfWriter, scribble, quiet bool) []vfM 
 func uRunX(t *testing.T, sc *uScript, out *vfWriter, scribble, quiet bool, rb *uRebind) []vfM { //nolint:gocognit,cyclop,maintidx
 	t.Helper()
 	e := &uEnv{t: t, out: out, dump: &uSyncBuf{}, nextRTP: map[uint32][]byte{}, scribble: scribble, quiet: quiet, nowire: sc.NoWire,
-		okW: map[uint32]int{}, okR: map[uint32]int{}, inflight: map[*rtp.Header]*uFlight{}, failStreams: map[uint32]bool{}, rb: rb}
+		okW: map[uint32]int{}, okR: map[uint32]int{}, inflight: map[*rtp.Header]*uFlight{}, failStreams: map[uint32]bool{}, bindGen: map[uint32]int{}, rb: rb}
 	if rb != nil {
 		e.nowire = true
 		rb.e = e
